@@ -15,7 +15,7 @@ from .common import COMPONENTS_BASE, run_sim, new_sim, finish_outcome
 
 PID = "C19"
 LEVEL = "exploration"
-BUDGET = {"quick": 30000, "thorough": 800000}
+BUDGET = {"quick": 300000, "thorough": 6000000}
 RULE = (
     "each run draws 1..3 co-tenant adapter scenarios: any_iter over {plain, awaitable} x {list, iterator, async "
     "iterator} x {plain, awaitable items} of 0..6 items with consumer steps 0..len+1; await_each over 0..6 logging, "
